@@ -62,6 +62,7 @@ pub fn run(ctx: &Ctx, rep: &mut Report) {
         }
         let hub_addr = b"axelar1hub".to_vec();
         let mut w = ItsWorld::new(&mut rng, b"stellar", &hub_addr, 3);
+        w.u.blanket_ok = true;
         w.trust(b"Ethereum-Sepolia");
         w.trust(b"gone");
         {
